@@ -17,11 +17,14 @@ _IMPL = [('RSocketMC', 'RSocketMC_channel_impl.cfg', 900)]
 _EXPECT_REFUTED = {'RSocketMC_channel_impl.cfg': 'NoClauseFails',
                    # vacuity control: the fragmented model does reach "the last fragment arrives after the receiver finished the stream"
                    'RSocketMC_stream_frag_witness.cfg': 'FragmentNeverOrphaned'}
-_TWO = [('RSocketMC2', 'RSocketMC2_%s.cfg' % k, 900) for k in ('rr_rr', 'rr_stream', 'stream_rr_s', 'stream_stream', 'streamlib_rr')]
+_TWO = [('RSocketMC2', 'RSocketMC2_%s.cfg' % k, 900) for k in ('rr_rr', 'rr_stream', 'stream_rr_s', 'stream_stream', 'streamlib_rr',
+                                                                'channel_rr', 'channel_stream')]
+# ... a channel whose requester has a publisher of its own next to a request-response: 1.5 M states (thorough tier)
+_TWO_BIG = [('RSocketMC2', 'RSocketMC2_channelpub_rr.cfg', 2400)]
 _TWO_FRAG = [('RSocketMC2', 'RSocketMC2_rr_stream_frag.cfg', 900), ('RSocketMC2', 'RSocketMC2_stream_stream_frag.cfg', 1500)]
 CONFIGS = {
-    'C01': _ALL + _TWO + _FRAG + _FRAG_BIG + _TWO_FRAG, 'C07': _ALL + _FRAG, 'C08': _ALL + _IMPL + _FRAG, 'C09': _ALL + _TWO + _FRAG,
-    'C10': _ALL + _TWO + _IMPL + _FRAG + _FRAG_BIG, 'C03': _FRAG,
+    'C01': _ALL + _TWO + _FRAG + _FRAG_BIG + _TWO_FRAG + _TWO_BIG, 'C07': _ALL + _FRAG, 'C08': _ALL + _IMPL + _FRAG, 'C09': _ALL + _TWO + _FRAG,
+    'C10': _ALL + _TWO + _IMPL + _FRAG + _FRAG_BIG + _TWO_BIG, 'C03': _FRAG,
     'C06': [c for c in _ALL if 'lib' in c[1] or c[1] == 'RSocketMC_stream.cfg'],
     'C05': _SMALL + _TWO + _FRAG + _TWO_FRAG, 'C11': _SMALL, 'C12': _SMALL,
 }
@@ -39,7 +42,7 @@ def run_for(v, prop):
     thorough = common.tier() == 'thorough'
     cfgs = CONFIGS.get(prop, [])
     if not thorough:
-        cfgs = [c for c in cfgs if c[1] not in ('RSocketMC_channel.cfg', 'RSocketMC_channel_frag.cfg')]
+        cfgs = [c for c in cfgs if c[1] not in ('RSocketMC_channel.cfg', 'RSocketMC_channel_frag.cfg', 'RSocketMC2_channelpub_rr.cfg')]
 
     def one(c):
         module, cfg, timeout = c
